@@ -808,6 +808,9 @@ def _start_time_strings(ctx, rep, tier):
         seen += 1
         heap = [it for it in loops if any(e.kind in ("MALLOC", "NULLIFY") for _, sub, _, _ in it.bodies for e in events_of(sub)) and it is not term and it is not loops[0]]
         rep.check(all(items.index(h) < items.index(term) for h in heap), "C03.n", "CodegenCtx._generate_start_implementation", "terminator written after the buffer exists", "terminator written before allocation")
+        acts = [it for it in items if isinstance(it, LoopBlock) and "self.start_actions" in it.iter_src]
+        rep.check(all(items.index(term) < items.index(a) for a in acts), "C03.n", "CodegenCtx._generate_start_implementation", "terminator written before the start actions run",
+                  "the initial terminator is written after the start actions: a string constant assigned as the parser's first statement gets its first byte overwritten with NUL")
         for delta, sub, endk, end in term.bodies:
             writes = [e for e in events_of(sub) if e.kind == "WRITE"]
             conds = {k: b for k, b in delta.items()}
